@@ -46,6 +46,7 @@ def warmup():
 REGRESSION = [
     {'ta': 'cone', 'tb': 'box', 'pl': 17, 'u': 3, 'oa': 9, 'ob': 0, 'sa': 0, 'sb': 0, 'fa': 0, 'ma': 0, 'mb': 0},
     {'ta': 'disk', 'tb': 'cone', 'pl': 17, 'u': 5, 'oa': 0, 'ob': 29, 'sa': 0, 'sb': 0, 'fa': 0, 'ma': 0, 'mb': 0},
+    {'ta': 'cone', 'tb': 'box', 'pl': 17, 'u': 5, 'oa': 9, 'ob': 0, 'sa': 0, 'sb': 0, 'fa': 0, 'ma': 0, 'mb': 0},
 ]
 
 
